@@ -10,6 +10,7 @@ import (
 	"github.com/ipld/go-ipld-prime/codec/dagjson"
 	"github.com/ipld/go-ipld-prime/datamodel"
 	"github.com/ipld/go-ipld-prime/node/basicnode"
+	"github.com/ipld/go-ipld-prime/schema"
 	"github.com/ipld/go-ipld-prime/traversal"
 
 	"verif/internal/core"
@@ -266,6 +267,39 @@ func c11Typed(c *core.Ctx, r *core.Rand, n int) error {
 		}
 		caseID := "c11.typed " + sc.Eng.Name() + " " + sc.Ty + " VAL " + input.Term()
 		c.Count(caseID, input.Size() > 3)
+		// schema management next to finished nodes: the node's type system is copied, type by type, into a private one that
+		// defines every one of its type names differently (so nothing is taken over) - the finished node reads as before
+		if tn, ok := src.(schema.TypedNode); ok && tn.Type() != nil && tn.Type().TypeSystem() != nil {
+			before := termOfOrErrSafe(src, nil) + " | " + termOfOrErrSafe(tn.Representation(), nil)
+			ts := tn.Type().TypeSystem()
+			_, panicked, pv := core.Catch(func() error {
+				private := &schema.TypeSystem{}
+				private.Init()
+				for _, name := range ts.Names() {
+					if _, isBool := ts.TypeByName(string(name)).(*schema.TypeBool); isBool {
+						private.Accumulate(schema.SpawnInt(name))
+					} else {
+						private.Accumulate(schema.SpawnBool(name))
+					}
+				}
+				schema.MergeTypeSystem(private, ts, true)
+				for _, name := range ts.Names() {
+					schema.Clone(ts.TypeByName(string(name)))
+				}
+				return nil
+			})
+			after := "panic"
+			core.Catch(func() error {
+				after = termOfOrErrSafe(src, nil) + " | " + termOfOrErrSafe(tn.Representation(), nil)
+				return nil
+			})
+			if panicked || after != before {
+				c.Fail("C11/finished-node-changed", core.Replay{Kind: "oracle", Case: caseID, Impl: truncateStr(after, 500) + fmt.Sprint(" ", pv), Expected: truncateStr(before, 500),
+					Detail: "after schema.MergeTypeSystem / schema.Clone of the node's type system into a private type system"})
+				continue
+			}
+			c.Dist("typed:type-system-merged-next-to-node")
+		}
 		typedAliasing(c, "C11", caseID, src.Prototype(), src)
 	}
 	return nil
